@@ -6,7 +6,7 @@ import torch as tn
 import numpy as np
 import torchtt 
 import datetime
-from torchtt._decomposition import QR, SVD, rank_chop, lr_orthogonal, rl_orthogonal
+from torchtt._decomposition import QR, SVD, rank_chop, lr_orthogonal, rl_orthogonal, _norm2
 from torchtt._iterative_solvers import BiCGSTAB_reset, gmres_restart
 import opt_einsum as oe
 
@@ -236,7 +236,7 @@ def function_interpolate(function, x, eps = 1e-9, start_tens = None, nswp = 20, 
     
             # split the super core with svd
             U,S,V = SVD(supercore)
-            rnew = rank_chop(S.cpu().numpy(),tn.linalg.norm(S).cpu().numpy()*eps/np.sqrt(d-1))+1
+            rnew = rank_chop(S.cpu().numpy(),_norm2(S).cpu().numpy()*eps/np.sqrt(d-1))+1
             rnew = min(S.shape[0],rnew)
             U = U[:,:rnew] 
             S = S[:rnew]
@@ -255,7 +255,7 @@ def function_interpolate(function, x, eps = 1e-9, start_tens = None, nswp = 20, 
             # compute err (dx)
             super_prev = tn.einsum('ijk,kmn->ijmn',cores[k],cores[k+1])
             super_prev = tn.einsum('ij,jklm,mn->ikln',Ps[k],super_prev,Ps[k+2])
-            err = tn.linalg.norm(supercore.flatten()-super_prev.flatten())/tn.linalg.norm(supercore)
+            err = _norm2(supercore.flatten()-super_prev.flatten())/_norm2(supercore.flatten())
             max_err = max(max_err,err)
             # update the rank
             if verbose:
@@ -330,7 +330,7 @@ def function_interpolate(function, x, eps = 1e-9, start_tens = None, nswp = 20, 
              
             # split the super core with svd
             U,S,V = SVD(supercore)
-            rnew = rank_chop(S.cpu().numpy(),tn.linalg.norm(S).cpu().numpy()*eps/np.sqrt(d-1))+1
+            rnew = rank_chop(S.cpu().numpy(),_norm2(S).cpu().numpy()*eps/np.sqrt(d-1))+1
             rnew = min(S.shape[0],rnew)
             U = U[:,:rnew] 
             S = S[:rnew]
@@ -354,7 +354,7 @@ def function_interpolate(function, x, eps = 1e-9, start_tens = None, nswp = 20, 
             # compute err (dx)
             super_prev = tn.einsum('ijk,kmn->ijmn',cores[k],cores[k+1])
             super_prev = tn.einsum('ij,jklm,mn->ikln',Ps[k],super_prev,Ps[k+2])
-            err = tn.linalg.norm(supercore.flatten()-super_prev.flatten())/tn.linalg.norm(supercore)
+            err = _norm2(supercore.flatten()-super_prev.flatten())/_norm2(supercore.flatten())
             max_err = max(max_err,err)
             # update the rank
             if verbose:
@@ -530,7 +530,7 @@ def dmrg_cross(function, N, eps = 1e-9, nswp = 10, x_start = None, kick = 2, dty
     
             # split the super core with svd
             U,S,V = SVD(supercore)
-            rnew = rank_chop(S.cpu().numpy(),tn.linalg.norm(S).cpu().numpy()*eps/np.sqrt(d-1))+1
+            rnew = rank_chop(S.cpu().numpy(),_norm2(S).cpu().numpy()*eps/np.sqrt(d-1))+1
             rnew = min(S.shape[0],rnew)
             U = U[:,:rnew] 
             S = S[:rnew]
@@ -548,7 +548,7 @@ def dmrg_cross(function, N, eps = 1e-9, nswp = 10, x_start = None, kick = 2, dty
             # compute err (dx)
             super_prev = tn.einsum('ijk,kmn->ijmn',cores[k],cores[k+1])
             super_prev = tn.einsum('ij,jklm,mn->ikln',Ps[k],super_prev,Ps[k+2])
-            err = tn.linalg.norm(supercore.flatten()-super_prev.flatten())/tn.linalg.norm(supercore)
+            err = _norm2(supercore.flatten()-super_prev.flatten())/_norm2(supercore.flatten())
             max_err = max(max_err,err)
             # update the rank
             if verbose:
@@ -611,7 +611,7 @@ def dmrg_cross(function, N, eps = 1e-9, nswp = 10, x_start = None, kick = 2, dty
              
             # split the super core with svd
             U,S,V = SVD(supercore)
-            rnew = rank_chop(S.cpu().numpy(),tn.linalg.norm(S).cpu().numpy()*eps/np.sqrt(d-1))+1
+            rnew = rank_chop(S.cpu().numpy(),_norm2(S).cpu().numpy()*eps/np.sqrt(d-1))+1
             rnew = min(S.shape[0],rnew)
             U = U[:,:rnew] 
             S = S[:rnew]
@@ -632,7 +632,7 @@ def dmrg_cross(function, N, eps = 1e-9, nswp = 10, x_start = None, kick = 2, dty
             # compute err (dx)
             super_prev = tn.einsum('ijk,kmn->ijmn',cores[k],cores[k+1])
             super_prev = tn.einsum('ij,jklm,mn->ikln',Ps[k],super_prev,Ps[k+2])
-            err = tn.linalg.norm(supercore.flatten()-super_prev.flatten())/tn.linalg.norm(supercore)
+            err = _norm2(supercore.flatten()-super_prev.flatten())/_norm2(supercore.flatten())
             max_err = max(max_err,err)
             # update the rank
             if verbose:
